@@ -276,7 +276,7 @@ pub fn run(ctx: &Ctx) -> i32 {
             let (prof, inject) = match rng.below(4) {
                 0 => (Profile::conforming(), None),
                 1 | 2 => (Profile::conforming(), Some(ALL_INJECT[rng.below(ALL_INJECT.len())])),
-                _ => (Profile::wild(), None),
+                _ => (Profile::wild_surface(), None),
             };
             let g = gen::generate(&mut rng, &prof, inject);
             for layout in ["plain", "styled", "first-line", "leading-blank", "two-per-line", "included", "no-final-newline"] {
